@@ -1,7 +1,8 @@
 use hashbrown::{HashMap, HashSet};
 
 use crate::adt::{AdtMetadata, FieldPosition};
-use crate::evolution::SerializedEvolutionStep;
+use crate::evolution::{write_removed_field, SerializedEvolutionStep};
+use crate::serializer::StoreStringResult;
 use crate::{
     BinaryOutput, BinarySerializer, Error, Evolution, Result, SerializationContext,
     DEFAULT_CAPACITY,
@@ -13,6 +14,7 @@ pub struct AdtSerializer<'a, 'b, Output: BinaryOutput> {
     buffers: Vec<Option<Vec<u8>>>, // TODO: We can avoid this completely by generating the write_fields in the proper order
     last_index_per_chunk: HashMap<u8, u8>,
     field_indices: HashMap<String, FieldPosition>,
+    removed_field_names: Vec<Option<StoreStringResult>>,
 }
 
 impl<'a, 'b, Output: BinaryOutput> AdtSerializer<'a, 'b, Output> {
@@ -28,11 +30,29 @@ impl<'a, 'b, Output: BinaryOutput> AdtSerializer<'a, 'b, Output> {
             buffers: Vec::new(),
             last_index_per_chunk: HashMap::new(),
             field_indices: HashMap::new(),
+            removed_field_names: Vec::new(),
         }
     }
 
     pub fn new(metadata: &'a AdtMetadata, context: &'b mut SerializationContext<Output>) -> Self {
         context.write_u8(metadata.version);
+        // The evolution header is written in finish(), after the fields, but it precedes them in the
+        // stream: a reader registers the (deduplicated) names of removed fields before any string of
+        // the fields. Reserve their string ids in that same order now.
+        let removed_field_names = metadata
+            .evolution_steps
+            .iter()
+            .map(|evolution| match evolution {
+                Evolution::FieldRemoved { name } | Evolution::FieldMadeTransient { name } => {
+                    Some(name)
+                }
+                Evolution::FieldMadeOptional { name } if metadata.removed_fields.contains(name) => {
+                    Some(name)
+                }
+                _ => None,
+            })
+            .map(|name| name.map(|name| context.state_mut().store_string(name.clone())))
+            .collect();
         Self {
             metadata,
             context,
@@ -41,6 +61,7 @@ impl<'a, 'b, Output: BinaryOutput> AdtSerializer<'a, 'b, Output> {
                 .collect(),
             last_index_per_chunk: HashMap::new(),
             field_indices: HashMap::new(),
+            removed_field_names,
         }
     }
 
@@ -138,7 +159,12 @@ impl<'a, 'b, Output: BinaryOutput> AdtSerializer<'a, 'b, Output> {
                     })
                 }
             }?;
-            step.serialize(self.context)?;
+            match (&step, &self.removed_field_names[v]) {
+                (SerializedEvolutionStep::FieldRemoved { .. }, Some(name)) => {
+                    write_removed_field(self.context, name)?
+                }
+                _ => step.serialize(self.context)?,
+            }
         }
         Ok(())
     }
